@@ -510,10 +510,21 @@ class Lin:
       return 'L'
     k, a = t.k, t.a
     if k == 'const':
+      if a[0] is None:
+        return 'Z'
       return 'Z' if (a[0] == 0 and not isinstance(a[0], bool) and isinstance(a[0], (int, float))) else 'C'
     if not sym.contains(t, self.is_var):
       if k == 'call' and alg.ext_short(a[0]) in ('zeros', 'zeros_like'):
         return 'Z'
+      if k in ('list', 'tuple') and all(x.k == 'const' and x.a[0] is None for x in a):
+        return 'Z'
+      return 'C'
+    if k == 'loop':
+      init = self.of(a[1]) if a[1].k != 'unbound' else 'Z'
+      return lin_join(init, self.of(a[2]))
+    if k == 'comp':
+      return self.of(a[1])
+    if k == 'loopvar':
       return 'C'
     if k in ('bcast', 'leaf'):
       return self.of(a[0])
@@ -563,6 +574,8 @@ class Lin:
     if k == 'call':
       if alg.ext_short(a[0]) in ('zeros_like', 'zeros'):
         return 'Z'
+      if a[0].k == 'ext' and a[0].a[0] == 'sum' and a[1]:
+        return self.of(a[1][0])
       slots = self.linear_slots(t)
       args = list(a[1]) + [v for _, v in a[2]]
       if slots is None:
